@@ -169,6 +169,20 @@ pub fn run_fuzz(seed: u64, thorough: bool) -> SOut {
                     out.distinct += 1;
                     check_all_entry_points(&p, &km, &mut out, &json!({"prefix_of": pr.name(), "len": l}), false);
                 }
+                // ... and the whole token, several times (it authenticates at its own entry points: what runs
+                // after authentication - JSON parsing, claim validators of either registration route - must not
+                // panic either)
+                for _ in 0..4 {
+                    out.distinct += 1;
+                    check_all_entry_points(&tok, &km, &mut out, &json!({"whole_token_of": pr.name()}), true);
+                }
+                // authentic tokens whose payload is not a JSON object (only the core layer accepts them)
+                for m in ["[1,2]", "\"text\"", "42", "null", "", "{", "\u{feff}{}"] {
+                    if let Out::Ok(t2) = core_mint(pr, &km, &nonce, m, footer, None) {
+                        out.distinct += 1;
+                        check_all_entry_points(&t2, &km, &mut out, &json!({"authentic_non_object_payload": m, "pr": pr.name()}), true);
+                    }
+                }
             }
         }
     }
